@@ -223,25 +223,33 @@ def random_body(rng, n):
             decos.insert(rng.randint(0, len(decos)), "other")
         if rng.random() < 0.05:
             decos.append("overload")
-        defs.append((name, decos))
+        defs.append((name, decos, rng.random() < 0.15))
     return defs
 
 
-def idiomatic_body(rng):
-    """Well-formed idioms only: overloads then implementation; property then setter/deleter."""
+def idiomatic_body(rng, scope="module"):
+    """Well-formed idioms only: overloads then implementation; property then setter/deleter.
+    Decorators are stacked the ways real code stacks them (overload outermost over staticmethod/classmethod or a
+    pass-through decorator, or innermost under one); some definitions are coroutines (incl. async properties)."""
     defs = []
     order = NAMES[:]
     rng.shuffle(order)
     blocks = []
     for name in order:
+        is_async = rng.random() < 0.25
         if rng.random() < 0.5:
-            blocks.append([(name, ["overload"]) for _ in range(rng.randint(1, 3))] + [(name, ["other"] if rng.random() < 0.3 else [])])
+            wrap = rng.choice([None, None, "other", "staticmethod", "classmethod"]) if scope == "class" else rng.choice([None, None, "other"])
+            def stack(base):
+                if wrap is None:
+                    return list(base)
+                return [*base, wrap] if rng.random() < 0.6 else [wrap, *base]   # overload above (usual) or below the wrapper
+            blocks.append([(name, stack(["overload"]), is_async) for _ in range(rng.randint(1, 3))] + [(name, stack([]), is_async)])
         else:
-            b = [(name, ["property"])]
+            b = [(name, ["property"], is_async)]
             if rng.random() < 0.7:
-                b.append((name, [f"{name}.setter"]))
+                b.append((name, [f"{name}.setter"], False))
             if rng.random() < 0.5:
-                b.append((name, [f"{name}.deleter"]))
+                b.append((name, [f"{name}.deleter"], False))
             blocks.append(b)
     # interleave blocks while keeping each block's internal order
     while any(blocks):
@@ -256,16 +264,16 @@ def render_body(defs, scope):
     if scope == "class":
         lines.append("class C:")
         ind = "    "
-    for name, decos in defs:
+    for name, decos, is_async in defs:
         for d in decos:
             lines.append(f"{ind}@{d}")
-        lines.append(f"{ind}def {name}(self=None): ...")
+        lines.append(f"{ind}{'async ' if is_async else ''}def {name}(self=None): ...")
     return "\n".join(lines) + "\n"
 
 
 def abstract_body(src, scope):
     tree = ast.parse(src)
-    body = tree.body[-1].body if scope == "class" else [n for n in tree.body if isinstance(n, ast.FunctionDef) and n.name != "other"]
+    body = tree.body[-1].body if scope == "class" else [n for n in tree.body if isinstance(n, (ast.FunctionDef, ast.AsyncFunctionDef)) and n.name != "other"]
     out = []
     for n in body:
         ds = []
@@ -325,11 +333,13 @@ def oracle_body(src, scope):
         if name not in holder:
             continue
         o = holder[name]
+        if isinstance(o, (staticmethod, classmethod)):
+            o = o.__func__
         if isinstance(o, property):
             out[name] = ["property", o.fget.__code__.co_firstlineno, None if o.fset is None else o.fset.__code__.co_firstlineno,
                          None if o.fdel is None else o.fdel.__code__.co_firstlineno]
         elif inspect.isfunction(o):
-            out[name] = ["function", o.__code__.co_firstlineno, [x.__code__.co_firstlineno for x in typing.get_overloads(o)]]
+            out[name] = ["function", o.__code__.co_firstlineno, [getattr(x, "__func__", x).__code__.co_firstlineno for x in typing.get_overloads(o)]]
     return out
 
 
@@ -340,14 +350,16 @@ def check_bodies(ctx, n_random, n_idiom):
         defs = random_body(ctx.rng, ctx.rng.randint(1, 7))
         cases.append(("random", scope, defs))
     for i in range(n_idiom):
-        cases.append(("idiom", "class" if i % 2 else "module", idiomatic_body(ctx.rng)))
+        sc = "class" if i % 2 else "module"
+        cases.append(("idiom", sc, idiomatic_body(ctx.rng, sc)))
     srcs = [render_body(d, s) for _, s, d in cases]
     model_out = ctx.model([["fseq", abstract_body(src, c[1])] for c, src in zip(cases, srcs)])
     for (stream, scope, defs), src, mo in zip(cases, srcs, model_out):
-        ctx.case({"scope": scope, "defs": defs}, any(d for _, d in defs))
+        ctx.case({"scope": scope, "defs": defs}, any(d for _, d, _a in defs))
         ctx.observe("body_stream", stream)
         ctx.observe("body_len", len(defs))
-        for _, ds in defs:
+        for _, ds, is_async in defs:
+            ctx.observe("async_def", is_async)
             for d in ds:
                 ctx.observe("decorator", d.split(".")[-1])
         try:
@@ -364,7 +376,7 @@ def check_bodies(ctx, n_random, n_idiom):
             firstline = {}
             body = tree.body[-1].body if scope == "class" else tree.body
             for n in body:
-                if isinstance(n, ast.FunctionDef):
+                if isinstance(n, (ast.FunctionDef, ast.AsyncFunctionDef)):
                     firstline[n.lineno] = n.decorator_list[0].lineno if n.decorator_list else n.lineno
             got = {}
             if impl[0] != "err":
@@ -386,8 +398,9 @@ def explore(ctx):
         vecs = list(vectors(3))
         ctx.exhaustive = True
     check_signatures(ctx, vecs, "exhaustive-small")
+    check_bodies(ctx, ctx.budget(600, 8000), ctx.budget(400, 4000))
+    # after the bodies (which contain decorated coroutines, properties, ...): state must not leak between definitions
     check_signatures(ctx, [random_vector(ctx.rng) for _ in range(ctx.budget(300, 4000))], "random<=8")
-    check_bodies(ctx, ctx.budget(600, 8000), ctx.budget(300, 4000))
     if not ctx.quick:
         arg = lambda n: [n, []]
         sample = [["params", abstract_arguments(find_def(ast.parse(f"def f({render_sig(v, True)}): ..."), ("f",)).args)] for v in ctx.rng.sample(vecs, 40)]
@@ -412,7 +425,7 @@ def search(ctx):
                 return
     for i in range(3000):
         scope = "class" if i % 2 else "module"
-        src = render_body(idiomatic_body(ctx.rng), scope)
+        src = render_body(idiomatic_body(ctx.rng, scope), scope)
         # re-use the idiom comparison through check_bodies' logic would need the model; inline the direct check
         try:
             impl = impl_body(src, scope)
@@ -422,7 +435,7 @@ def search(ctx):
         orc = oracle_body(src, scope)
         tree = ast.parse(src)
         body = tree.body[-1].body if scope == "class" else tree.body
-        firstline = {n.lineno: (n.decorator_list[0].lineno if n.decorator_list else n.lineno) for n in body if isinstance(n, ast.FunctionDef)}
+        firstline = {n.lineno: (n.decorator_list[0].lineno if n.decorator_list else n.lineno) for n in body if isinstance(n, (ast.FunctionDef, ast.AsyncFunctionDef))}
         got = {}
         for m in impl[0]:
             if m[1] == "function":
